@@ -10,9 +10,9 @@
                            sequences of instances of class c
      run_old               the same with lookup / get_images as they were before the fix: commits *)
 From Coq Require Import ZArith List Bool.
-From Common Require Import Res.
-From Routing Require Import Model Obs Proofs_Tables Proofs_Group Proofs_Merge Proofs_Library Proofs_Ops
-     Proofs_Routing Proofs_Witness.
+From Common Require Import Res Str.
+From Routing Require Import Model Scheme Obs Spec Obs Proofs_Tables Proofs_Group Proofs_Merge Proofs_Library Proofs_Ops
+     Proofs_Routing Proofs_Witness Proofs_Frame Proofs_Sets Proofs_Scheme Proofs_Trace.
 Import ListNotations.
 Open Scope Z_scope.
 
@@ -95,6 +95,28 @@ Theorem C09_images_noninterference : forall j P P' mx us log m log' m',
 Proof. exact run_images_noninterference. Qed.
 Print Assumptions C09_images_noninterference.
 
+(* frame, for every request kind: a backend that is not asked cannot influence anything *)
+Theorem C09_frame : forall j P P' mx o,
+  differ_only_at j P P' -> (forall m a, ~ In (Bk j, m, a) (fst (run P mx o))) -> run P mx o = run P' mx o.
+Proof. exact run_frame. Qed.
+Print Assumptions C09_frame.
+
+Theorem C09_frame_nonvacuous :
+  differ_only_at 1 [pA; pB] [pA; pB'] /\
+  fst (run [pA; pB] None (OPlLookup (1, 1))) = [(Bk 0, PLookup, AUri (1, 1))] /\
+  (forall m a, ~ In (Bk 1%nat, m, a) (fst (run [pA; pB] None (OPlLookup (1, 1))))).
+Proof. exact frame_nonvacuous. Qed.
+Print Assumptions C09_frame_nonvacuous.
+
+(* browse(uri) / get_items / playlists.lookup / save / delete: the whole observation is
+   independent of every backend that does not own the URI's scheme *)
+Theorem C09_single_uri_noninterference : forall j P P' T mx o u flag empty,
+  mk_backends P = Ok T -> differ_only_at j P P' ->
+  single_uri_op o = Some (u, flag, empty) -> ~ owns flag P j (u_scheme u) ->
+  run_op T P mx o = run_op T P' mx o.
+Proof. exact single_uri_noninterference. Qed.
+Print Assumptions C09_single_uri_noninterference.
+
 (* aggregate requests are the concatenation of one contribution per asked provider, each a
    function of that provider's own answer only *)
 Theorem C09_search_decomposes : forall T P q us e log l,
@@ -110,6 +132,53 @@ Theorem C09_as_list_decomposes : forall T P log l,
   l = flat_map (fun b => as_list_contrib (ans P b PAsList AUnit)) (dedup (tvalues (t_playlists T))).
 Proof. exact as_list_decomposes. Qed.
 Print Assumptions C09_as_list_decomposes.
+
+(* search / as_list: exactly which providers are asked, and under a change of backend j's
+   answers the result only changes in j's own segment (which is empty if j is not asked) *)
+Theorem C09_search_exact : forall T P q us e log l,
+  search T P q us e = (log, Ok (VList l)) ->
+  log = map (fun g => (Bk (fst g), MSearch, ASearch (sq_normalize q) (snd g) e)) (search_targets T q us) /\
+  l = flat_map (fun g => search_contrib (ans P (fst g) MSearch (ASearch (sq_normalize q) (snd g) e)))
+               (search_targets T q us).
+Proof. exact search_exact. Qed.
+Print Assumptions C09_search_exact.
+
+Theorem C09_search_noninterference : forall j P P' T q us e log l log' l',
+  differ_only_at j P P' ->
+  search T P q us e = (log, Ok (VList l)) -> search T P' q us e = (log', Ok (VList l')) ->
+  log = log' /\
+  exists pre mine mine' post,
+    l = pre ++ mine ++ post /\ l' = pre ++ mine' ++ post /\
+    ((forall m a, ~ In (Bk j, m, a) log) -> mine = [] /\ mine' = []).
+Proof. exact search_noninterference. Qed.
+Print Assumptions C09_search_noninterference.
+
+Theorem C09_as_list_noninterference : forall j P P' T log l log' l',
+  differ_only_at j P P' ->
+  as_list T P = (log, Ok (VList l)) -> as_list T P' = (log', Ok (VList l')) ->
+  log = log' /\
+  exists pre mine mine' post,
+    l = pre ++ mine ++ post /\ l' = pre ++ mine' ++ post /\
+    ((forall m a, ~ In (Bk j, m, a) log) -> mine = [] /\ mine' = []).
+Proof. exact as_list_noninterference. Qed.
+Print Assumptions C09_as_list_noninterference.
+
+(* set-valued aggregates: no duplicates, members = members of the acceptable answers *)
+Theorem C09_roots_decompose : forall T P log l,
+  browse T P BNone = (log, Ok (VList l)) ->
+  NoDup l /\
+  forall e, In e l <-> exists b, In b (tvalues (t_browse T)) /\ In e (root_contrib (ans P b MRoot AUnit)).
+Proof. exact roots_decompose. Qed.
+Print Assumptions C09_roots_decompose.
+
+Theorem C09_distinct_decompose : forall T P f q log l,
+  get_distinct T P f q = (log, Ok (VList l)) ->
+  NoDup l /\
+  forall e, In e l <->
+            exists b, In b (tvalues (t_lib T)) /\
+                      In e (distinct_contrib (field_cls f) (ans P b MDistinct (ADistinct (field_compat f) q))).
+Proof. exact distinct_decompose. Qed.
+Print Assumptions C09_distinct_decompose.
 
 (* ---- T5: containment of faults *)
 (* full strength: refuted by library.search re-raising LookupError and playlists.save
@@ -303,3 +372,31 @@ Theorem C09_fixed_on_witnesses :
   = Ok (VMap [((1, 1), [trk 1]); ((2, 1), [trk 2001]); ((9, 3), [])]).
 Proof. exact lookup_fixed_on_witness. Qed.
 Print Assumptions C09_fixed_on_witnesses.
+
+(* ---- the scheme of a URI text (transcription of urllib.parse.urlsplit, correspondence-checked) *)
+Theorem C09_scheme_is_lowercase : forall s, forallb lower_scheme_char (scheme_of s) = true.
+Proof. exact scheme_of_lower. Qed.
+Print Assumptions C09_scheme_is_lowercase.
+
+Theorem C09_scheme_of_wellformed_uri : forall c p rest,
+  is_ascii_alpha c = true -> forallb scheme_char (c :: p) = true ->
+  scheme_of ((c :: p) ++ COLON :: rest) = map ascii_lower (c :: p).
+Proof. exact scheme_of_wellformed. Qed.
+Print Assumptions C09_scheme_of_wellformed_uri.
+
+Theorem C09_no_colon_no_scheme : forall s, ~ In COLON s -> scheme_of s = [].
+Proof. exact scheme_of_no_colon. Qed.
+Print Assumptions C09_no_colon_no_scheme.
+
+(* ---- the monitor: one boolean function of an observation collecting T1, T2 (soundness), T3,
+        typing of merged entries and the raise shape; true on every observation of the model.
+        The harness evaluates this same function on the implementation's observations. *)
+Theorem C09_trace_predicate_holds : forall P mx o, trace_ok_b P o (run P mx o) = true.
+Proof. exact trace_ok_model. Qed.
+Print Assumptions C09_trace_predicate_holds.
+
+Theorem C09_log_methods : forall T P mx o log out,
+  run_op T P mx o = (log, out) ->
+  forall w m a, In (w, m, a) log -> In m (op_meths o) /\ (w = Mx <-> is_mixer_meth m = true).
+Proof. exact log_methods. Qed.
+Print Assumptions C09_log_methods.
